@@ -157,6 +157,7 @@ def run(P, C, tier):
     except mir.MissingAnchor as e:
         C.anchor_missing("R4", "get_order", e)
     run_tables(P, C)
+    r9_value_column(P, C)
 
 
 # ---------------------------------------------------------------------------------------------------------------
@@ -454,3 +455,38 @@ def run_tables(P, C):
         C.floor("R8", "accessor templates", n, 19)
     except mir.MissingAnchor as e:
         C.anchor_missing("R8", "query.rs", e)
+
+
+def r9_value_column(P, C):
+    C.rule("R9", "filters, order keys and cursors on a selected field are compiled to `value->>'$.<alias>'`: in every SELECT whose tail is produced by "
+                 "get_end_select_query the column `value` is the json_object of the SAME entity's selected fields (get_fields) on every path -- also inside "
+                 "EXISTS sub-selects, where a cheaper `SELECT 1 as value` makes every alias predicate NULL and silently drops the parent row")
+    n = 0
+    for b, ebi, et in P.call_sites(r"query::get_end_select_query$"):
+        if b.blocks[ebi]["cl"] or ebi not in b.live_blocks():
+            continue
+        ent = strip_refs(b.call_args(ebi, expand_vars=True)[0])
+        # the `... as value` piece of this builder
+        as_value = [bi for bi, piece in pushes(b) if re.match(r"^\s*as value\b", piece)]
+        for av in as_value:
+            n += 1
+            # the push_str that precedes it on every path: the closest dominating push on the same string
+            prev = None
+            for d in b.dom_chain(av):
+                if d == av:
+                    continue
+                t = b.blocks[d]["t"]
+                if t["k"] == "call" and callee_name(t).endswith("String::push_str") and field_path(strip_refs(b.call_args(d)[0])) == field_path(strip_refs(b.call_args(av)[0])):
+                    if prev is None or b.dominates(prev, d):
+                        prev = d
+            ok = False
+            detail = "no selection pushed before ` as value`"
+            if prev is not None:
+                sel = strip_refs(b.call_args(prev, expand_vars=True)[1])
+                while sel[0] in ("deref", "ref") or (sel[0] == "call" and sel[2] and re.search(r"::deref$|::as_str$", sel[1])):
+                    sel = strip_refs(sel[2][0] if sel[0] == "call" else sel[1])
+                ok = sel[0] == "call" and sel[1].endswith("query::get_fields") and strip_refs(sel[2][0]) == ent
+                detail = "selection = %s; tail compiled for %s" % (term_str(sel)[:90], term_str(ent)[:40])
+            C.ob("R9", "value-is-the-selected-object:%s#%d" % (short(b.id), len([1 for o in C.obligations if o["key"].startswith("C05/R9/value-is-the-selected-object:%s#" % short(b.id))])),
+                 ok, b.loc(av), detail)
+    C.floor("R9", "SELECT ... as value builders with a compiled tail", n, 3)
